@@ -133,7 +133,7 @@ def explore(modname, params, budget_s, nproc=None, sample_every=10, seed=0, max_
                 ntask += 1
                 small = len(outstanding) + len(queue) < nproc
                 args = (modname, params, batch, 12 if small else chunk_paths, 2.0 if small else chunk_seconds,
-                        sample_every if len(res.samples) < max_samples else 0, (seed * 1000003 + ntask) if seed else 0,
+                        (1 if ntask <= 6 else sample_every) if len(res.samples) < max_samples else 0, (seed * 1000003 + ntask) if seed else 0,
                         first, timeout_ms)
                 first = False
                 outstanding.append(pool.apply_async(_task, (args,)))
